@@ -51,6 +51,12 @@ type shardPlan struct {
 	// of measurement "m" (response messages are flushed every 64 KiB); Tagged adds one series
 	// per triple (measurement "t<a>", tag "k<b>" = "v<c>")
 	Big    int      `json:"big,omitempty"`
+	// typed-merge worlds only: timestamps (= row ids) of the points of measurement "mi", whose
+	// field "v" is an INTEGER; a shard with no Int holds no measurement "mi" at all
+	Int []int64 `json:"int,omitempty"`
+	// MapType worlds only: the type ("f", "i", "s", "b") of field "w" of measurement "mt" in
+	// this shard; empty: the shard does not hold the measurement
+	WT string `json:"wt,omitempty"`
 	Tagged [][3]int `json:"tagged,omitempty"`
 }
 
@@ -281,6 +287,7 @@ type caseState struct {
 	calls   []callRec
 	pendErr map[string]int // node|ids -> error replies the store still has to produce
 	showErr map[uint64]bool // nodes whose store fails MeasurementNames / TagKeys / TagValues
+	delay   map[uint64]time.Duration // typed-merge cases: how long a node waits before it serves a request
 }
 
 func newCaseState(plan func(node uint64, ids []uint64, idx int, typ byte) outcome) *caseState {
@@ -575,6 +582,9 @@ type nodeStore struct {
 }
 
 func (s nodeStore) ShardGroup(ids []uint64) tsdb.ShardGroup {
+	if cs := s.n.cur(); cs != nil && cs.delay != nil {
+		time.Sleep(cs.delay[s.n.id])
+	}
 	sg := s.Store.ShardGroup(ids)
 	if cs := s.n.cur(); cs != nil && cs.takeErr(s.n.id, ids) {
 		return errShardGroup{sg}
@@ -778,6 +788,25 @@ func loadShard(st *tsdb.Store, sp shardPlan) {
 		for _, t := range sp.Times {
 			pts = append(pts, models.MustNewPoint(measName(0), models.NewTags(nil), models.Fields{"s": big}, time.Unix(0, t)))
 		}
+	}
+	if sp.WT != "" {
+		var v interface{}
+		switch sp.WT {
+		case "f":
+			v = float64(1)
+		case "i":
+			v = int64(1)
+		case "s":
+			v = "x"
+		case "b":
+			v = true
+		default:
+			panic("unknown field type " + sp.WT)
+		}
+		pts = append(pts, models.MustNewPoint("mt", models.NewTags(nil), models.Fields{"w": v}, time.Unix(0, int64(sp.Group)*1000)))
+	}
+	for _, t := range sp.Int {
+		pts = append(pts, models.MustNewPoint("mi", models.NewTags(nil), models.Fields{"v": int64(t)}, time.Unix(0, t)))
 	}
 	for i, tg := range sp.Tagged {
 		pts = append(pts, models.MustNewPoint(fmt.Sprintf("t%d", tg[0]),
@@ -1899,6 +1928,24 @@ func main() {
 					panic(err)
 				}
 				runShow(o, d, "replay")
+			case "tmerge":
+				var d tmergeDesc
+				if err := json.Unmarshal(in.Desc, &d); err != nil {
+					panic(err)
+				}
+				runTMerge(o, d, "replay")
+			case "mtype":
+				var d mtypeDesc
+				if err := json.Unmarshal(in.Desc, &d); err != nil {
+					panic(err)
+				}
+				runMType(o, d, "replay")
+			case "rsmerge":
+				var d rsmergeDesc
+				if err := json.Unmarshal(in.Desc, &d); err != nil {
+					panic(err)
+				}
+				runRSMerge(o, d, "replay")
 			}
 		}
 		return
@@ -1911,6 +1958,10 @@ func main() {
 	// the stream / SHOW cases draw from their own generators: the query cases of a seed stay the same
 	designedStream(o, f.Tier)
 	designedShow(o)
+	designedMerge(o)
+	genMerge(o, hx.NewRand(f.Seed*7919+19), f.Tier)
+	designedMType(o)
+	genMType(o, hx.NewRand(f.Seed*7919+20), f.Tier)
 	genStream(o, hx.NewRand(f.Seed*7919+17), f.N/3, f.Tier)
 	genShow(o, hx.NewRand(f.Seed*7919+18), f.N/6, f.Tier)
 	perWorld := 40
